@@ -345,6 +345,50 @@ theorem memoised_tool_list_interferes :
     ∧ ((Tools.exec false lists [0, 1, 1, 1, 0, 0, 2] Tools.St.init).rs 2).tuple = some 9 := by
   decide
 
+/-! ### the successor list of a branching node
+
+`runner.calculateBranch` collects the nodes the branches of a completed node select, and
+`resolveCompletedTasks` adds the direct successors (`chanCall.writeTo`, a slice of the COMPILED
+runner that aliases `g.dataEdges[name]` and was built by `append`: 3 or 5–7 direct edges leave spare
+capacity).  It is the same collection discipline as for the option lists, on node keys. -/
+
+/-- **branch_successors_fresh.** The slice `calculateBranch` returns is made in the call and only
+    grown by `x = append(x, …)`; neither it nor `resolveCompletedTasks` appends onto a slice read
+    from a field of the compiled runner. -/
+theorem branch_successors_fresh : FactsC09.branchSuccessorsFresh = true := by decide
+
+theorem facts_match_branch : FactsC09.branchSuccessorsFresh = Expected.C09.branchSuccessorsFresh := by decide
+
+/-- **The successors a run delivers to are the ones ITS branch conditions selected (plus the direct
+    ones)** – for the code as it is (`branchSuccessorsFresh` from /repo), any tables of the compiled
+    runner (`h0`; any spare capacity), any number of runs evaluating the node at the same time, each
+    with any list of groups (what its conditions returned, the runner's `writeTo`), and EVERY
+    interleaving of the appends: what a run reads is the concatenation of its own groups, and the
+    runner's arrays are never written. -/
+theorem run_delivers_to_own_branch_targets (h0 : C10.Heap) (prog : List (List C10.Slice))
+    (wf : Opt.WF h0 prog) (sched : List Nat) (t : Nat) (gs : List C10.Slice) (r : List C10.Hd)
+    (hp : prog[t]? = some gs)
+    (hs : ((Opt.exec FactsC09.branchSuccessorsFresh prog sched (Opt.St.init h0)).th t).seen = some r) :
+    r = (gs.map h0.read).flatten
+    ∧ ∀ a, a < h0.length →
+        (Opt.exec FactsC09.branchSuccessorsFresh prog sched (Opt.St.init h0)).heap[a]? = h0[a]? := by
+  rw [branch_successors_fresh] at hs ⊢
+  have inv := Opt.inv_exec wf sched _ (Opt.inv_init h0 prog)
+  exact ⟨inv.sn t gs r hp hs, inv.pre⟩
+
+/-- **Appending the selections onto the runner's `writeTo` (negation witness).**  Three direct
+    successors (ids 1,2,3: len 3, cap 4) and two branches; run 0 selects 10 then 11, run 1 selects 20
+    then 21.  Interleaved as run 0's branch 0, run 1's branch 0, run 0's branch 1, run 0 delivers to
+    run 1's target 20 instead of its own 10; alone, or with a list made by the run, it does not. -/
+theorem shared_write_to_misroutes_a_run :
+    let h : C10.Heap := [[⟨1, none⟩, ⟨2, none⟩, ⟨3, none⟩, default], [⟨10, none⟩], [⟨11, none⟩], [⟨20, none⟩], [⟨21, none⟩]]
+    let bad : List (List C10.Slice) :=
+      [[⟨0, 0, 3, 4⟩, ⟨1, 0, 1, 1⟩, ⟨2, 0, 1, 1⟩], [⟨0, 0, 3, 4⟩, ⟨3, 0, 1, 1⟩, ⟨4, 0, 1, 1⟩]]
+    Opt.seenAll false h bad [0, 0, 1, 1, 0, 0] = [some [⟨1, none⟩, ⟨2, none⟩, ⟨3, none⟩, ⟨20, none⟩, ⟨11, none⟩], none]
+    ∧ Opt.seenAll false h bad [0, 0, 0, 0] = [some [⟨1, none⟩, ⟨2, none⟩, ⟨3, none⟩, ⟨10, none⟩, ⟨11, none⟩], none]
+    ∧ Opt.seenAll true h bad [0, 0, 1, 1, 0, 0] = [some [⟨1, none⟩, ⟨2, none⟩, ⟨3, none⟩, ⟨10, none⟩, ⟨11, none⟩], none] := by
+  decide
+
 end CallOptions
 
 /-! ## callback handlers (Go slice semantics)
